@@ -12,7 +12,8 @@ SAFE_WORDS = ["a", "b", "c", "data", "src", "lib", "doc", "x1", "x2", "tmp", "ze
 EXTS = ["", "", ".txt", ".rs", ".c", ".md", ".TXT", ".tar.gz", ".zip", ".png", ".o", ".old", ".py"]
 ODD_NAMES = ["with space", "dash-name", "under_score", ".hidden", ".dot.conf", "UPPER", "MiXeD.Txt",
              "ünï", "日本", "a.b.c", "trailing.", "x y z.txt", "#hash", "semi;colon", "plus+one",
-             "at@sign", "tilde~", "eq=sign"]
+             "at@sign", "tilde~", "eq=sign", "back\\slash", "win\\dir", "-leading-dash", "trailing blank ", "new\nline", "q'uote",
+             "n" * 200, "ü" * 120]
 
 
 def gen_name(rng, odd=0.25, used=None):
